@@ -511,6 +511,69 @@ pub fn ts_sync(t: &mut Tracer, role: Role, api: &str, input: &[u8]) {
     finish(t, "ts", api, input, None, m);
 }
 
+/// The buffered reader the way a driver uses it: ONE typestate object, a buffer that grows by
+/// `step` bytes per attempt; what was consumed is dropped from the front. The frames obtained and the
+/// final answer (all input offered) must be those of a single call on the whole input.
+pub fn ts_incr(t: &mut Tracer, role: Role, input: &[u8], step: usize) {
+    journal("ts_incr", input);
+    let meas = measure(|| {
+        let mut m = Map::new();
+        let mut out = Vec::new();
+        let mut ts = make_ts(role);
+        let mut consumed = 0usize;
+        let mut have = 0usize;
+        let mut calls = 0usize;
+        'outer: loop {
+            // offer what has arrived so far, again and again while frames come out
+            loop {
+                calls += 1;
+                if calls > 4 * TS_MAX_CALLS + input.len() + 8 {
+                    break 'outer;
+                }
+                let mut r = BufferReader::new(&input[consumed..have]);
+                let res = lib(|| match &mut ts {
+                    Ts::BiRemote(x) => x.read_frame_from_buffer(&mut r),
+                    Ts::BiLocal(x) => x.read_frame_from_buffer(&mut r),
+                    Ts::UniRemote(x) => x.read_frame_from_buffer(&mut r),
+                    Ts::Session(x) => x.read_frame_from_buffer(&mut r),
+                });
+                let used = consumed + r.offset();
+                match res {
+                    Ok(Some(f)) => {
+                        out.push(ts_entry_ok(&f, used));
+                        consumed = used;
+                        if out.len() >= TS_MAX_CALLS {
+                            break 'outer;
+                        }
+                    }
+                    Ok(None) => {
+                        if have == input.len() {
+                            out.push(ts_entry("more", None, None, used));
+                            break 'outer;
+                        }
+                        // (a reader that advanced although it asked for more has lost those bytes)
+                        consumed = used;
+                        break;
+                    }
+                    Err(code) => {
+                        out.push(ts_entry("err", Some(code), None, used));
+                        break 'outer;
+                    }
+                }
+            }
+            have = (have + step.max(1)).min(input.len());
+        }
+        put(&mut m, "out", Value::Array(out));
+        put(&mut m, "step", json!(step));
+        m
+    });
+    let mut m = meas;
+    if let Some(fields) = m.value.as_mut() {
+        put(fields, "role", json!(role.name()));
+    }
+    finish(t, "ts", "incr", input, None, m);
+}
+
 pub fn ts_async(t: &mut Tracer, role: Role, input: &[u8], script: &[usize], eof: Eof) {
     journal("ts_async", input);
     let meas = measure(|| {
